@@ -49,7 +49,12 @@ def gen_data(rng, method, n=None, m=None, extra=None, declared=None, positive=Fa
             crits[j]['valuesRange'] = {'min': -PU * rng.choice([8, 10]), 'max': -PU * rng.choice([0, 1]) // 2}
     chose = [a['id'] for a in known[:n]]
     rng.shuffle(chose)
-    cs = CRIT[:m]
+    if rng.random() < 0.5:      # criteria need not be declared in any particular order
+        order = list(range(m))
+        rng.shuffle(order)
+        crits = [crits[j] for j in order]
+        types = [types[j] for j in order]
+    cs = [c['id'] for c in crits]
     if method in ('weightedSum', 'owa'):
         mp = {'weights': {c: PU * rng.choice([0, 1, 2, 3, 5]) // rng.choice([1, 2]) for c in cs}}
     elif method == 'choquetIntegral':
